@@ -7,6 +7,7 @@ import Scico.Proofs.DriverTrace
 import Scico.Proofs.DriverSeq
 import Scico.Proofs.DriverCtl
 import Scico.Proofs.DriverMore
+import Scico.Proofs.DriverDisp
 
 namespace Scico.Props.C15
 open Scico.Driver Scico.Driver.Spec
@@ -179,6 +180,54 @@ theorem C15_history_transpose {β : Type} (r0 : List β) (rest : List (List β))
   ⟨rfl, historyTranspose_spec r0 rest⟩
 
 example : historyTranspose [[1, 2, 3], [4, 5, 6]] = [[some 1, some 4], [some 2, some 5], [some 3, some 6]] := by
+  decide
+
+
+/-- **What `IterationStats` prints** (`display`, `period ≥ 1`, `shift_cycles`, `overwrite`), for any
+    number of insertions from any state: nothing at all with `display=False`; otherwise the
+    header exactly once, before the first record printed after construction, and for the record at
+    position `n` — with `overwrite` always, terminated by a line feed iff it ends a display cycle
+    and by a carriage return otherwise; without `overwrite` only if it ends a cycle.  A record ends
+    a cycle iff its position is `0, p, 2p, …` (`shift_cycles`) or `p-1, 2p-1, …` (otherwise);
+    `end()` prints one bare line feed iff displaying, overwriting, `period > 1` and the last
+    record did not end a cycle. -/
+theorem C15_display (o : DisplayOpts) (hp : 0 < o.period) (k : Nat) (s : Disp) :
+    (o.display = false → (dispInserts o k s).out = s.out ∧ (dispEnd o s).out = s.out) ∧
+    (o.display = true → dispInserts o k s =
+      ⟨s.len + k, s.hdrPending && decide (k = 0),
+        s.out ++ (if s.hdrPending && decide (0 < k) then [.header] else []) ++
+          (List.range k).flatMap (fun n => rowEvent o (s.len + n))⟩) ∧
+    (∀ n, cycleEnd o (n + 1) = true ↔
+      (if o.shiftCycles then n % o.period = 0 else (n + 1) % o.period = 0)) ∧
+    ((dispEnd o s).out = s.out ++
+      (if o.display && o.overwrite && decide (o.period > 1) && !(cycleEnd o s.len) then [.newline] else [])) := by
+  refine ⟨fun h => ⟨by rw [dispInserts_off o h], by simp [dispEnd, h]⟩, fun h => dispInserts_on o h k s,
+    fun n => cycleEnd_iff o hp n, ?_⟩
+  unfold dispEnd
+  split <;> simp
+
+/-- **What remains visible after one `solve()`** on an ideal terminal (carriage return: the next
+    output replaces the line; line feed: the line stays), `k ≥ 1` iterations on a fresh displaying
+    object followed by `end()`: with `overwrite` the header, the records that end a cycle and the
+    last record; without it the header and the records that end a cycle are all that is printed. -/
+theorem C15_display_visible (o : DisplayOpts) (hd : o.display = true) (hp : 0 < o.period) (k : Nat)
+    (hk : 0 < k) :
+    (o.overwrite = true →
+      ((Screen.mk [] none).run (dispEnd o (dispInserts o k (Disp.init o))).out).visible =
+        Line.header :: ((List.range k).filter (fun n => cycleEnd o (n + 1) || decide (n + 1 = k))).map Line.row) ∧
+    (o.overwrite = false →
+      (dispEnd o (dispInserts o k (Disp.init o))).out =
+        PrintEv.header :: ((List.range k).filter (fun n => cycleEnd o (n + 1))).map (fun n => PrintEv.row n true)) :=
+  ⟨fun ho => visible_overwrite o hd ho hp k hk, fun ho => visible_plain o hd ho k hk⟩
+
+-- non-vacuity: period 3 without shift, overwrite: 7 records; records 2 and 5 end a cycle, record 6 is
+-- committed by `end()`; everything else was overwritten
+example :
+    let o : DisplayOpts := { display := true, period := 3, shiftCycles := false, overwrite := true }
+    (dispEnd o (dispInserts o 7 (Disp.init o))).out =
+        [.header, .row 0 false, .row 1 false, .row 2 true, .row 3 false, .row 4 false, .row 5 true, .row 6 false, .newline] ∧
+      ((Screen.mk [] none).run (dispEnd o (dispInserts o 7 (Disp.init o))).out).visible =
+        [.header, .row 2, .row 5, .row 6] := by
   decide
 
 /-- **Statistics columns**: for every optimiser class, sub-problem solver and objective flag the
